@@ -36,11 +36,22 @@ def _pairs(rnd, B, with_time, cal, nb):
         a -= 4
     sa = rnd.choice((0, 1, 43200, 86399, rnd.randrange(86400))) if with_time else 0
     out = []
+    ya = R.ymd(a)[0]
     for _ in range(nb):
         g = G.gap(rnd, rnd.choice(G.GAPS))
         if not with_time:
             g = g // 86400 * 86400
         t = a * 86400 + sa + g * rnd.choice((1, -1))
+        if cal and rnd.random() < 0.2:
+            # the later (or earlier) value on or next to a leap day / year end some years away:
+            # where the year, month and day-of-year borrows meet
+            y2 = ya + rnd.choice((-9, -8, -5, -4, -3, -1, 1, 3, 4, 5, 8, 12))
+            if 1602 <= y2 <= 4094:
+                m2, d2 = rnd.choice(((2, 28), (2, 29), (3, 1), (12, 31), (1, 1), (2, 27)))
+                if m2 == 2 and d2 == 29 and not R.is_leap(y2):
+                    y2 += 4 - y2 % 4 if R.is_leap(y2 + 4 - y2 % 4) else 8 - y2 % 4
+                if 1602 <= y2 <= 4094 and ((m2, d2) != (2, 29) or R.is_leap(y2)):
+                    t = R.n_of(y2, m2, d2) * 86400 + (sa if with_time else 0)
         n, s = divmod(t, 86400)
         if not (R.NMIN + 100 <= n <= R.NMAX - 100):
             continue
